@@ -95,13 +95,14 @@ theorem C01_range_verdict (ext : Ext) (text key arg msg obj field : Bytes) (v : 
       rw [← hcore]; simp [h1, h2]
 
 /-- `eq` / `noeq` -/
-theorem C01_eq_verdict (text key arg msg obj field : Bytes) (v : GoVal) (wantEq : Bool) (lo : Int) (m : Measure)
+theorem C01_eq_verdict (ext : Ext) (text key arg msg obj field : Bytes) (v : GoVal) (wantEq : Bool) (lo : Int) (m : Measure)
     (hp : parseValidNameKV text = (key, arg, msg))
     (hb : parseBounds (eqRule wantEq) arg = some (lo, 0))
     (hm : Spec.Size.measure v = some m) (hx : boundsExact v lo 0 = true) :
-    match ruleEq text obj field v wantEq with
+    match ruleEq ext text obj field v wantEq with
     | .ok out => (out ≠ [] ↔ inSet (eqRule wantEq) lo 0 m = false)
     | .error (.unmodelled _) => inSet (eqRule wantEq) lo 0 m = false
+    | .error (.need _) => inSet (eqRule wantEq) lo 0 m = false
     | .error _ => False := by
   have hlo : (atoi arg).1 = lo := by
     cases wantEq <;>
@@ -121,16 +122,19 @@ theorem C01_eq_verdict (text key arg msg obj field : Bytes) (v : GoVal) (wantEq 
   · simp only [hw]
     have hviol : inSet (eqRule wantEq) lo 0 m = false := by
       cases wantEq <;> simp_all [eqRule, inSet]
-    rcases toStrIface_cases v with ⟨s, hs⟩ | ⟨w, hs⟩
+    rcases toStrIface_cases ext v with ⟨s, hs⟩ | ⟨w, hs⟩ | ⟨q, hs⟩
     · simp [hs, violClause_ne_nil, hviol]
+    · simp [hs, hviol]
     · simp [hs, hviol]
 
 /-- what "the rule is violated" means for a run of a rule function on the model: it wrote a clause.
-`unmodelled` = the verdict is "violated" but the clause text needs `fmt %v` of a composite (not modelled) -/
+`unmodelled` / `need` = the verdict is "violated" but the clause text needs `fmt %v` of a composite
+(a residual answered by the standard library, or not nameable on the wire) -/
 def Judged (res : M Bytes) (violated : Prop) : Prop :=
   match res with
   | .ok out => (out ≠ [] ↔ violated)
   | .error (.unmodelled _) => violated
+  | .error (.need _) => violated
   | .error _ => False
 
 theorem C01_verdict (ext : Ext) (text obj field : Bytes) (v : GoVal) (r : SizeRule) (lo hi : Int) (m : Measure)
@@ -185,14 +189,14 @@ theorem C01_verdict (ext : Ext) (text obj field : Bytes) (v : GoVal) (r : SizeRu
   · rename_i h; have := eq_of_beq h; subst this; cases hk
     have h0 := one .eq (by decide) hb; subst h0
     refine ⟨_, rfl, ?_⟩
-    have := C01_eq_verdict text _ arg msg obj field v true lo m hp hb hm hx
+    have := C01_eq_verdict ext text _ arg msg obj field v true lo m hp hb hm hx
     simp only [Judged]
     split <;> simp_all [eqRule]
   split at hk
   · rename_i h; have := eq_of_beq h; subst this; cases hk
     have h0 := one .noeq (by decide) hb; subst h0
     refine ⟨_, rfl, ?_⟩
-    have := C01_eq_verdict text _ arg msg obj field v false lo m hp hb hm hx
+    have := C01_eq_verdict ext text _ arg msg obj field v false lo m hp hb hm hx
     simp only [Judged]
     split <;> simp_all [eqRule]
   · cases hk
